@@ -165,6 +165,7 @@ type WriteResult struct {
 	Stats    *mcap.Statistics
 	Writer   *mcap.Writer
 	AttSrcs  map[int]*AttachSrc
+	rejects  map[int]bool // API call indexes that must be refused
 }
 
 type WriteOpts struct {
@@ -179,7 +180,12 @@ type WriteOpts struct {
 // WriterSteps returns the writer run as a list of single API-call closures so
 // that a scheduler can interleave several instances. Call them in order.
 func WriterSteps(cfg scen.Cfg, wl scen.Workload, sink *simdisk.Sink, opt WriteOpts) (*WriteResult, []func()) {
-	res := &WriteResult{Sink: sink, AttSrcs: map[int]*AttachSrc{}}
+	res := &WriteResult{Sink: sink, AttSrcs: map[int]*AttachSrc{}, rejects: map[int]bool{}}
+	for i, op := range wl.Ops {
+		if op.Reject {
+			res.rejects[i+1] = true
+		}
+	}
 	var w *mcap.Writer
 	dead := false
 	var steps []func()
@@ -273,6 +279,12 @@ func (r *WriteResult) FirstProblem() string {
 	for i := range r.Errs {
 		if r.Panics[i] != nil {
 			return fmt.Sprintf("api call %d %s", i, r.Panics[i].String())
+		}
+		if r.rejects[i] {
+			if r.Errs[i] == nil {
+				return fmt.Sprintf("api call %d must be refused (unknown channel / schema, schema id 0) but returned nil", i)
+			}
+			continue
 		}
 		if r.Errs[i] != nil {
 			return fmt.Sprintf("api call %d error: %v", i, r.Errs[i])
